@@ -37,6 +37,7 @@ type world struct {
 	cur     state // committed state
 	commits []commitRec
 	nextTag int32
+	depth2  bool
 }
 
 func open(frames int) *world {
@@ -146,6 +147,17 @@ func (w *world) crashAndCheckT(onlyAfterLastCommit bool, torn bool) {
 	}
 	r2 := sysx.OpenReal(dbName, 200)
 	vf.Cover("c01.restarted")
+	if w.depth2 {
+		// C20: crash again at every prefix of the I/O the recovery run itself performed, then restart again
+		n2 := vf.FsTraceLen()
+		k2 := vf.Choose(n2 + 1)
+		vf.Note("second-crash-at", k2)
+		vf.Note("recovery-trace-len", n2)
+		r2.Sdb.ShutdownForTescase()
+		vf.FsCrash(k2, 0)
+		r2 = sysx.OpenReal(dbName, 200)
+		vf.Cover("c20.second-restart")
+	}
 	tm := r2.Cat.GetTableByName("t1")
 	if tm == nil {
 		// crash before the table's creation was durable
@@ -184,8 +196,11 @@ func (w *world) crashAndCheckT(onlyAfterLastCommit bool, torn bool) {
 
 func history(ntxn int, onlyAfterLastCommit bool) { historyT(ntxn, onlyAfterLastCommit, false) }
 
-func historyT(ntxn int, onlyAfterLastCommit bool, torn bool) {
+func historyT(ntxn int, onlyAfterLastCommit bool, torn bool) { historyD(ntxn, onlyAfterLastCommit, torn, false) }
+
+func historyD(ntxn int, onlyAfterLastCommit bool, torn bool, depth2 bool) {
 	w := open(50)
+	w.depth2 = depth2
 	for i := 0; i < ntxn; i++ {
 		if !w.txn(i == ntxn-1) {
 			break
@@ -206,3 +221,8 @@ func VF_C01_T3() { history(3, true) }
 func VF_C02_T1() { history(1, false) }
 func VF_C02_T2() { history(2, false) }
 func VF_C02_T3() { history(3, false) }
+
+// C20: recovery interrupted by a second crash at every point of its own I/O, then repeated
+func VF_C20_T1() { historyD(1, false, false, true) }
+func VF_C20_T2() { historyD(2, false, false, true) }
+func VF_C20_T3() { historyD(3, false, false, true) }
